@@ -111,6 +111,10 @@ theorem svcT_armTtl (s : Stack) (ttl : Nat) (cb : Cb) (h : isSvcExpiry cb = fals
 @[simp] theorem svcT_sendSd (s : Stack) (es : List SDEntry) (d : Dest) : svcT (s.sendSd es d) = svcT s := by
   unfold sendSd; split; rfl; simp only []; split; rfl; split <;> rfl
 
+@[simp] theorem svcT_with_flushLog (s : Stack) (x : List (Dest × List SDEntry)) : svcT { s with flushLog := x } = svcT s := rfl
+@[simp] theorem svcT_flushTo (s : Stack) (es : List SDEntry) (d : Dest) : svcT (s.flushTo es d) = svcT s := by
+  unfold flushTo; rw [svcT_sendSd]; rfl
+
 @[simp] theorem svcT_newCollector (s : Stack) (d : Dest) : svcT (s.newCollector d).1 = svcT s := by
   unfold newCollector; simp only []
   exact (svcT_with_coll_nextCid _ _ _).trans (by simp)
@@ -124,7 +128,7 @@ theorem svcT_armTtl (s : Stack) (ttl : Nat) (cb : Cb) (h : isSvcExpiry cb = fals
     · simp
 
 @[simp] theorem svcT_collectorTimeout (s : Stack) (c : Nat) : svcT (s.collectorTimeout c) = svcT s := by
-  unfold collectorTimeout; split; rfl; simp only []; rw [svcT_sendSd]; rfl
+  unfold collectorTimeout; split; rfl; simp only []; rw [svcT_flushTo]; rfl
 
 @[simp] theorem svcT_createTask (s : Stack) (k : TaskKind) : svcT (s.createTask k).1 = svcT s := by
   unfold createTask; simp
